@@ -26,7 +26,7 @@ EXPLANATION = (
 COMPOUND_STRINGS = {}      # string -> [builder(table), tables it was parsed with ...]
 
 
-def setup(ctx):
+def setup(ctx, energy_dependent=()):
     seen = []
 
     def parsed(I_, args, kw):
@@ -45,7 +45,7 @@ def setup(ctx):
             kw_ = {"natural_density" if mm.group(3) == "n" else "density": sp.Rational(mm.group(2))}
             return I_.call(fm, [{hyd: sp.Integer(2), Oo: sp.Integer(1)}], kw_)
         raise AnalysisError(f"unexpected formula string {s!r} reaches the parser in the D2O routines")
-    w = neutron_world(ctx, stubs={"formulas.parse_formula": parsed})
+    w = neutron_world(ctx, stubs={"formulas.parse_formula": parsed}, energy_dependent=energy_dependent)
     w.I.module_cache[("core", "PUBLIC_TABLE")] = w.table
     # the elements of the abstract table that the routines look up by name
     assert w.element("O") is w.atoms["element2"]
@@ -116,6 +116,21 @@ def run(ctx):
     second = I.call(dsld, [I.call(fm, [dict(ints)], {"density": r2})], dict(kw, D2O_fraction=d))
     eq(ctx, "R2", "a second evaluation of the same formula at another density does not depend on the first",
        second[0], sp.sympify(first[0]).subs(r1, r2), s_sld)
+    # nothing is remembered between calls: a call with an explicit wavelength leaves the next default call unchanged
+    # (decided with an energy-dependent isotope in the compound, where the SLD really depends on the wavelength)
+    w3, _ = setup(ctx, energy_dependent=("isotope",))
+    I3 = w3.I
+    A3 = w3.atoms
+    mol3 = I3.call(I3.global_name("formulas", "formula"), [{A3["H1"]: q[0], A3["isotope"]: q[2], A3["element2"]: q[3]}], {"density": rho})
+    dsld3 = I3.global_name("nsf", "D2O_sld")
+    lamA = sp.Symbol("lamA", positive=True)
+    r0 = I3.call(dsld3, [mol3], {"table": w3.table, "D2O_fraction": d})
+    r1 = I3.call(dsld3, [mol3], {"table": w3.table, "D2O_fraction": d, "wavelength": lamA})
+    r2 = I3.call(dsld3, [mol3], {"table": w3.table, "D2O_fraction": d})
+    ctx.check(sp.sympify(r1[0]).has(lamA), "R2", "with an energy-dependent isotope the SLD depends on the wavelength given",
+              f"{_s(r1[0], 200)} does not mention the wavelength", s_sld)
+    for i, nm in enumerate(("real", "imaginary")):
+        eq(ctx, "R2", f"{nm} SLD at the default wavelength is the same before and after a call with wavelength=", r2[i], r0[i], s_sld)
     # match point: decided over opaque component SLDs (the four SLDs themselves are checked above)
     s_m = fsite(ctx, "nsf.D2O_match")
     w2, _ = setup(ctx)
@@ -144,7 +159,7 @@ def run(ctx):
     eq(ctx, "R1", "fasta.D2Omatch(Hsld, Dsld) = 100 * the nsf match equation with the 20 C water SLDs", fm_, 100 * nm,
        fsite(ctx, "fasta.D2Omatch"))
     ctx.floor("R1", 16)
-    ctx.floor("R2", 4)
+    ctx.floor("R2", 7)
 
     # R3 roles and solvents
     ctx.check(set(seen) == {"H2O@0.9982n", "D2O@0.9982n"}, "R3",
